@@ -31,7 +31,7 @@ REF_MS = 2500
 
 
 def gen_base(rng, seed):
-    fam = rng.choice(['chain', 'tee', 'rejoin', 'balance'])
+    fam = rng.choice(['chain', 'tee', 'rejoin', 'rejoin', 'balance', 'join'])
     required = rng.random() < 0.5
     p = Pipe()
     period = rng.choice([[20], [40], [0, 30]])
@@ -49,6 +49,10 @@ def gen_base(rng, seed):
         elif fam == 'tee':
             p.sink('sink', [{'pub': 'src', 'form': 'all'}], {'proc_ms': [0]})
             p.sink('k1', [{'pub': 'src', 'form': 'main'}], {'proc_ms': rng.choice([[0], [30]])})
+        elif fam == 'join':
+            # two independent sources joined in one sink: either source (or the sink) is the victim
+            p.source('src2', {'nframes': 10 ** 7, 'proc_ms': rng.choice([[20], [60]]), 'content': ['data'], 'topics': ['cam2']})
+            p.sink('sink', [{'pub': 'src', 'form': 'all'}, {'pub': 'src2', 'form': [('cam2', 'second')]}], {'proc_ms': rng.choice([[0], [25]])})
         else:
             slow = rng.choice([None, 0, 1])          # one branch more than a poll interval behind the other
             skipper = rng.choice([None, 0, 1])       # one branch skips ids (the join then has to adopt newer ids)
@@ -66,6 +70,8 @@ def gen_base(rng, seed):
             p.require_sync_consumers()
     for n in p.nodes:
         n['start_ms'] = rng.choice([0, 0, rng.randint(0, 100)])
+        if n['role'] != 'source' and rng.random() < 0.15:
+            n['config']['sources_low_latency'] = True
     link = {'max_delay_ms': rng.choice([0, 10, 50, 90]), 'conn_ms': [0, 30], 'sub_ms': [0, 20]}
     return scenarios.finish(p, seed, link, 10 ** 7, family=fam, required=required, stop_when_all_done=False)
 
@@ -145,11 +151,27 @@ def judge(w, scn, res):
         req = [x for x in (n['config'].get('outputs_required') or '').split(',') if x]
         if victim in req and not dead_for_good:
             back = next((e['t'] for e in w.sim.log if e.get('ev') == 'push' and e['node'] == victim and e['inc'] >= 1), None)
-            lo, hi = t_kill + 300_000_000, (back if back is not None else w.t_end)
-            pubs = [(t, mid) for t, inc, mid in monitors.publications(w, n['id']) if lo < t < hi]
+            hi = back if back is not None else w.t_end
+            allp = [(t, mid) for t, inc, mid in monitors.publications(w, n['id'])]
+            pubs = [(t, mid) for t, mid in allp if t_kill < t < hi]
             res.count('required_gate_windows_checked')
-            if pubs:
-                bad.append(('published-without-required-output', f'{n["id"]} published id(s) {[m for _, m in pubs][:4]} at {[round((t - t_kill) / 1e9, 2) for t, _ in pubs][:4]} s after its required output {victim} was killed and before it was back'))
+            # Until the dead consumer's silence reaches the connection timeout the publisher rightly believes it alive and
+            # may answer the requests it sent before it died (one publish per request): those are the requests sent since
+            # shortly before the publisher's last publication (they may have been in flight when it published).
+            from openfilter.filter_runtime import zeromq as _z
+            D = int((scn['link'].get('max_delay_ms', 0) + 1) * 1e6)
+            reqs = [e['t'] for e in w.sim.log if e.get('ev') == 'push' and e['node'] == victim and e.get('inc', 0) == 0 and e['t'] <= t_kill
+                    and str(e.get('addr') or '').startswith(f'ipc://{n["id"]}') and (json.loads(e['env']).get('mid', -9) > -2)]
+            last_pub = max([t for t, _ in allp if t <= t_kill], default=-1)
+            pending = [t for t in reqs if t > last_pub - D]
+            t_silent = (max(reqs) if reqs else t_kill) + _z.ZMQ_CONN_TIMEOUT * 1_000_000 + D
+            early = [(t, m) for t, m in pubs if t < t_silent]
+            late = [(t, m) for t, m in pubs if t >= t_silent]
+            res.count('publications_answering_requests_of_the_dead_consumer', len(early))
+            if len(early) > len(pending):
+                bad.append(('published-without-required-output', f'{n["id"]} published {len(early)} id(s) {[m for _, m in early][:4]} at {[round((t - t_kill) / 1e9, 2) for t, _ in early][:4]} s after its required output {victim} was killed although only {len(pending)} request(s) of it could still be unanswered'))
+            if late:
+                bad.append(('published-without-required-output', f'{n["id"]} published id(s) {[m for _, m in late][:4]} at {[round((t - t_kill) / 1e9, 2) for t, _ in late][:4]} s after its required output {victim} was killed, i.e. after its silence had reached the connection timeout, and before it was back'))
     for e in w.clog:
         if e['ev'] == 'run-raised' and e['exc'] not in ('SimKilled',):
             bad.append((f'filter-raised:{e["exc"]}', f'{e["node"]}: {e["msg"]}'))
